@@ -48,7 +48,7 @@ Proof.
   - etransitivity; [apply Permutation_map, Permutation_map, stable_sort_perm|]. rewrite !map_map. apply Permutation_refl.
   - etransitivity; [apply Permutation_map, Permutation_map, stable_sort_perm|]. rewrite !map_map.
     erewrite map_ext; [apply Permutation_refl|]. intros [sh|t c sh]; reflexivity.
-  - apply Permutation_map, Permutation_map, stable_sort_perm.
+  - etransitivity; [apply Permutation_map, Permutation_map, stable_sort_perm|]. rewrite !map_map. apply Permutation_refl.
 Qed.
 
 Lemma items_single_perm pds : Permutation (items_of (collect_single pds)) (flat_map items_of pds).
